@@ -70,11 +70,21 @@ func (c *Ctx) InstallReachingIn(root *ast.BlockStmt) (undo func()) {
 				if o == nil {
 					continue
 				}
-				if s.Tok != token.DEFINE && s.Tok != token.ASSIGN || inLoopOrLit() {
+				if inLoopOrLit() {
 					tainted[o] = true
 					continue
 				}
 				var rhs ast.Expr
+				if s.Tok != token.DEFINE && s.Tok != token.ASSIGN {
+					// x op= e  is  x = x op e
+					op, known := opOfAssign[s.Tok]
+					if !known || len(s.Lhs) != 1 || len(s.Rhs) != 1 {
+						tainted[o] = true
+						continue
+					}
+					defs[o] = append(defs[o], def{&ast.BinaryExpr{X: id, Op: op, Y: s.Rhs[0]}, s.End(), scopeOf()})
+					continue
+				}
 				switch {
 				case len(s.Lhs) == len(s.Rhs):
 					rhs = s.Rhs[i]
@@ -181,4 +191,10 @@ func (c *Ctx) InstallReachingIn(root *ast.BlockStmt) (undo func()) {
 		return best.rhs
 	}
 	return func() { c.PosSubst = prev }
+}
+
+var opOfAssign = map[token.Token]token.Token{
+	token.ADD_ASSIGN: token.ADD, token.SUB_ASSIGN: token.SUB, token.MUL_ASSIGN: token.MUL, token.QUO_ASSIGN: token.QUO,
+	token.REM_ASSIGN: token.REM, token.AND_ASSIGN: token.AND, token.OR_ASSIGN: token.OR, token.XOR_ASSIGN: token.XOR,
+	token.SHL_ASSIGN: token.SHL, token.SHR_ASSIGN: token.SHR, token.AND_NOT_ASSIGN: token.AND_NOT,
 }
